@@ -79,7 +79,41 @@ CHECKS['C19'] = dict(
          'JSON bytes, exit codes, terminal text are clap/serde/std semantics: not decided.',
     note=ASSUME + '; clap derive uses the field type\'s FromStr (C18); serde derive symmetry',
     technique='field-type + value-flow (wiring) analysis by abstract interpretation of the bin crate\'s MIR')
-for _p in ['C02','C03','C04','C09','C10','C12']:
+CHECKS['C02'] = dict(
+    text='Decides: weather non-interference (directly and through policy None), one horizon constant in [-0.883,-0.783] used both in cos H0 '
+         'and in the altitude correction, the weather factor of the refraction (increasing in pressure, decreasing in temperature, 1 at '
+         'standard conditions), rise/set day fraction normalised into [0,1], shared guard, hemisphere parity of cos H0. The 0.05 degree '
+         'altitude agreement is numeric: not decided.',
+    note=ASSUME + '; |lat| <= 60, |dec| < 24',
+    technique='dependence, interval, monotone and parity abstract domains on the reconstructed rise/set terms')
+CHECKS['C03'] = dict(
+    text='Decides on the reconstructed twilight terms: key flow (own angle only; Imsaak perturbs only the Fajr entry of a clone by the '
+         'documented amount per branch and is the rerun\'s Fajr), orientation around the very Dhuhr term within 12 h, monotone in the own '
+         'angle, hemisphere parity, validity guard. Agreement with an ephemeris (0.03 / 0.5 deg) is numeric: not decided.',
+    note=ASSUME + '; |lat| <= 60, |dec| < 24, angles in [0,25]; libm monotone on monotone branches',
+    technique='dependence, interval, monotone and parity abstract domains on reconstructed terms + abstract interpretation of the Imsaak builder')
+CHECKS['C04'] = dict(
+    text='Decides: k is the numeric school enum (Shafi=1, Hanafi=2), only Asr depends on it, Asr = Dhuhr + t with t in [0,12] h, Asr weakly '
+         'increasing in k (Hanafi not earlier than Shafi for every input), shadow-length term k + tan|lat-dec| >= k, hemisphere parity. '
+         'The 0.03 degree altitude and Asr < Maghrib are numeric: not decided.',
+    note=ASSUME + '; |lat| <= 60, |dec| < 24; libm monotone on monotone branches',
+    technique='ADT discriminants + dependence, interval, monotone and parity abstract domains on the reconstructed Asr term')
+CHECKS['C10'] = dict(
+    text='Decided on all skeleton worlds with polynomial normal forms: nearest-latitude worlds take the same-key entry of the conventional '
+         'computation at coordinates differing in latitude only (and do so wherever the policy applies); seventh-of-night/day, angle-based '
+         'and minutes-from-maghrib values are polynomially identical to the documented expressions and are applied where the policy says; '
+         'the interval definition is re-applied after every policy except the three interval consumers; replaced values are flagged. '
+         'The 3-second numeric agreement is not decided.',
+    note=ASSUME + '; different polynomials in free atoms are different functions',
+    technique='skeleton worlds + polynomial normal-form identity of the replaced value terms')
+CHECKS['C12'] = dict(
+    text='Non-interference matrix parameters x times on the reconstructed terms (no-dispatch worlds) + pairing rules: interval definitions '
+         'Isha = Maghrib + intervals[Isha]/60, Fajr = Shurooq - intervals[Fajr]/60 (polynomial identity), each entry converted/offset under '
+         'its own key, Imsaak branches with documented amounts, absent weather = Weather::default(). Exact minute amounts beyond the /60 '
+         'factor are numeric.',
+    note=ASSUME + '; dispatch worlds excluded (documented coupling of Fajr/Isha: C08-C10)',
+    technique='dependence (non-interference) analysis + polynomial identity on reconstructed terms')
+for _p in ['C09']:
     NA[_p] = 'check not yet registered in this commit (design in DESIGN.md §4; being built)'
 NA['C17'] = 'calendar equality over 3.65 M dates is arithmetic over runtime values (float floor, data-dependent search loops): no clause is visible in the shape of the code'
 NA['C20'] = 'metamorphic relation between numeric outputs through the whole ephemeris; the only structural fact behind it is not a necessary condition'
